@@ -97,6 +97,8 @@ class SockDomain(Domain):
 
     def event(self, state, oid, ev):
         evs = state.get(("ev", oid), ())
+        if evs and evs[-1] == ev:
+            return state  # the same operation repeated (e.g. one setsockopt per option in a loop) is one fact
         return state.set(("ev", oid), evs + (ev,))
 
     # -- calls ----------------------------------------------------------------
